@@ -109,7 +109,12 @@ def value_of_names(e):
         return False
 
     mentions(e, pred)
-    return out
+    # one name read several times (the closure that reports a failure captures the same option again) is one name
+    uniq = []
+    for n_ in out:
+        if n_ not in uniq:
+            uniq.append(n_)
+    return uniq
 
 
 def run(run):
